@@ -66,7 +66,7 @@ class _DumpOnly:
 
 
 PRETTY = '{\n  "jsonrpc": "2.0",\n  "method": "pre/serialised",\r\n  "params": {"k": [1,\n 2]}\n}'
-K_REQ, K_NOTIF, K_DICT, K_RAW_COMPACT, K_RAW_PRETTY, K_UNSER_SET, K_NODUMP, K_BADDUMP, K_DUMPONLY, K_RESP, K_FALSY_TYPED, K_FALSY_DICT, K_FALSY_DUMPONLY = range(13)
+K_REQ, K_NOTIF, K_DICT, K_RAW_COMPACT, K_RAW_PRETTY, K_UNSER_SET, K_NODUMP, K_BADDUMP, K_DUMPONLY, K_RESP, K_FALSY_TYPED, K_FALSY_DICT, K_FALSY_DUMPONLY, K_DICT_NUM, K_TYPED_NUM = range(15)
 
 
 def item(kind, pos, s):
@@ -100,6 +100,13 @@ def item(kind, pos, s):
     if kind == K_RESP:
         m = JM.create_error_response(pos, -32000, s, {"s": s})
         return m, {"jsonrpc": "2.0", "id": pos, "error": {"code": -32000, "message": s, "data": {"s": s}}}
+    if kind in (K_DICT_NUM, K_TYPED_NUM):
+        # numbers at the edges of the fast encoder's range (it falls back to the stdlib encoder beyond 64 bits)
+        nums = {"i63": 2 ** 63, "u64": 2 ** 64 - 1, "big": 2 ** 70 + pos, "neg": -(2 ** 63), "f": 1e308, "z": -0.0, "tiny": 5e-324, "t": True}
+        d = {"jsonrpc": "2.0", "id": 2 ** 63 + pos, "result": {"nums": nums, "list": [2 ** 64, None, 1.5]}}
+        if kind == K_TYPED_NUM:
+            return JM.JSONRPCMessage(**d), d
+        return dict(d), d
     if kind in (K_FALSY_TYPED, K_FALSY_DICT, K_FALSY_DUMPONLY):
         # members that are present but falsy must survive: id 0, empty result, empty params, empty string, false
         variants = [
